@@ -412,6 +412,7 @@ def _monitor(case: dict, impl: dict) -> list[Violation]:
     is_up: dict[int, bool] = {}
     slots = case['slots']
     decision_slots = slots
+    started_under: dict[int, int] = {}        # upload -> slot limit at the decision that started it
     last_cycle_idx = -1
     last_change_idx = -1
     last_cycle = None
@@ -435,7 +436,9 @@ def _monitor(case: dict, impl: dict) -> list[Violation]:
             last_change_idx = idx
             if is_up.get(k) and new in ('INITIALIZING', 'UPLOADING'):
                 act = [j for j, s in state.items() if is_up.get(j) and s in ('INITIALIZING', 'UPLOADING')]
-                limit = max(slots, decision_slots)
+                # the limit that counts is the one in force when the upload was started (the decision that created its
+                # task); lowering it afterwards lets what was started go on
+                limit = max(slots, started_under.pop(k, decision_slots) if new == 'INITIALIZING' else slots)
                 if new == 'INITIALIZING' and len(act) > limit:
                     add('C05-slot-limit-exceeded',
                         f'upload {k} became INITIALIZING: {len(act)} uploads are initialising/uploading, limit {limit}',
@@ -454,6 +457,8 @@ def _monitor(case: dict, impl: dict) -> list[Violation]:
                 if k not in user_of:
                     user_of[k], is_up[k], state[k] = u, d == 'U', st
             sel = [k for kind, k in started if kind == 'T' and is_up.get(k, True)]
+            for k in sel:
+                started_under[k] = info['slots']
             xs = {k: (u, d, st) for k, u, d, st in info['xs']}
             seen = info['users']
             users = reported[idx]
